@@ -179,5 +179,44 @@ def emissivity (sqrt : α → α) (f : α → α → α) (verts : List (α × α
   | (_, some e) => .error e
   | (ss, none) => if n = 0 then .error "ZeroDivisionError" else .ok (meanOf f ss n, ss)
 
+/-! ### VoxelCollection / ToroidalVoxelGrid as a state machine
+
+State = the voxels' volumes (`_voxels`, fixed at construction) and which voxels are currently parented to the grid.
+`total_volume` iterates `_voxels` — all voxels — whatever their parent. -/
+
+inductive GridOp where
+  | activeAll                 -- set_active('all')
+  | active (i : Nat)          -- set_active(i): IndexError when out of range (state unchanged)
+  | unparentAll               -- unparent_all_voxels()
+  | parentAll                 -- parent_all_voxels()
+  | setParent (i : Nat) (b : Bool)   -- grid[i].parent = grid / None
+  deriving Repr
+
+structure Grid (α : Type) where
+  vols : List α
+  parented : List Bool
+
+def Grid.mk' (vols : List α) (active : Option Nat) : Grid α :=
+  match active with
+  | none => ⟨vols, vols.map fun _ => true⟩
+  | some i => ⟨vols, (List.range vols.length).map fun j => j == i⟩
+
+def Grid.step (g : Grid α) : GridOp → Grid α
+  | .activeAll => ⟨g.vols, g.parented.map fun _ => true⟩
+  | .active i => if i < g.vols.length then ⟨g.vols, (List.range g.parented.length).map fun j => j == i⟩ else g
+  | .unparentAll => ⟨g.vols, g.parented.map fun _ => false⟩
+  | .parentAll => ⟨g.vols, g.parented.map fun _ => true⟩
+  | .setParent i b => ⟨g.vols, g.parented.set i b⟩
+
+def Grid.run (g : Grid α) (ops : List GridOp) : Grid α := ops.foldl Grid.step g
+
+/-- `VoxelCollection.total_volume` -/
+def Grid.total (g : Grid α) : α := totalVolume g.vols
+
+/-- totals observed after every operation of a history -/
+def Grid.trace (g : Grid α) : List GridOp → List α
+  | [] => []
+  | op :: ops => (g.step op).total :: (g.step op).trace ops
+
 end
 end Cherab.Voxels
